@@ -806,6 +806,22 @@ class Interp:
     def ev_ListComp(self, e, env):
         return self.comprehension(e, env, "list")
 
+    def _ev_stored(self, e, env):
+        """the value of an expression that is stored or returned: a generator expression stays unevaluated (it runs when — and only
+        if — something consumes it), also as the deciding operand of `x and (… for …)` / `x or (…)` / `a if c else (… for …)`"""
+        if isinstance(e, ast.GeneratorExp):
+            return Gen(e, env)
+        if isinstance(e, ast.BoolOp) and isinstance(e.values[-1], ast.GeneratorExp):
+            for operand in e.values[:-1]:
+                v = self.ev(operand, env)
+                if self.truth(v) != isinstance(e.op, ast.And):
+                    return v  # `and`: the first falsy operand; `or`: the first truthy one
+            return Gen(e.values[-1], env)
+        if isinstance(e, ast.IfExp) and (isinstance(e.body, ast.GeneratorExp) or isinstance(e.orelse, ast.GeneratorExp)):
+            branch = e.body if self.truth(self.ev(e.test, env)) else e.orelse
+            return self._ev_stored(branch, env)
+        return self.ev(e, env)
+
     def ev_GeneratorExp(self, e, env):
         return self.comprehension(e, env, "gen")
 
@@ -2254,7 +2270,7 @@ class Interp:
             return
         if isinstance(s, ast.Assign):
             self.value_ctx = isinstance(s.value, ast.BoolOp)
-            v = Gen(s.value, env) if isinstance(s.value, ast.GeneratorExp) else self.ev(s.value, env)
+            v = self._ev_stored(s.value, env)
             self.value_ctx = False
             for t in s.targets:
                 self.assign(t, v, env, s)
@@ -2330,7 +2346,7 @@ class Interp:
             return
         if isinstance(s, ast.Return):
             self.value_ctx = isinstance(s.value, ast.BoolOp)
-            v = (Gen(s.value, env) if isinstance(s.value, ast.GeneratorExp) else self.ev(s.value, env)) if s.value else Const(None)
+            v = self._ev_stored(s.value, env) if s.value else Const(None)
             self.value_ctx = False
             raise _Return(v)
         if isinstance(s, ast.Raise):
